@@ -1,4 +1,5 @@
-(* correspondence for C19.  Two kinds of cases:
+(* correspondence for C19.  Three kinds of cases (the third, c19g_case, at the end of the file:
+   a population given to Generation.FillPopulationStatistics and what it recorded):
    c19s_case  a float64 series (with the 16-byte alignment of its first element, which the
               amd64 assembly of gonum's Sum reads) and what the ten Floats methods returned;
    c19e_case  a synthetic experiment (recorded fields of every generation of every trial), the
@@ -139,3 +140,21 @@ Definition c19e_check (c : c19e_case) : bool :=
   && fl_eqb [an; ag; ae; ad] (c19e_avg_winner c).
 
 Definition c19e_mismatches (l : list c19e_case) : list Z := failing c19e_check c19e_id l.
+
+(* ---------------- Generation.FillPopulationStatistics ---------------- *)
+
+Definition mkspecies (age : Z) (os : list forg) : @species float := {| s_age := age; s_orgs := os |}.
+
+Record c19g_case := {
+  c19g_id : Z; c19g_solved : bool; c19g_species : list (@species float); c19g_ks : list Z;
+  c19g_out : res (Z * (list float * list float * list float * option forg)) }.
+
+Definition c19g_out_eqb (a b : Z * (list float * list float * list float * option forg)) : bool :=
+  let '(d1, (a1, c1, f1, ch1)) := a in
+  let '(d2, (a2, c2, f2, ch2)) := b in
+  Z.eqb d1 d2 && fl_eqb a1 a2 && fl_eqb c1 c2 && fl_eqb f1 f2 && option_eqb org_eqb ch1 ch2.
+
+Definition c19g_check (c : c19g_case) : bool :=
+  res_eqb c19g_out_eqb (g_fill fnum (c19g_solved c) None (c19g_species c) (c19g_ks c)) (c19g_out c).
+
+Definition c19g_mismatches (l : list c19g_case) : list Z := failing c19g_check c19g_id l.
